@@ -1,4 +1,5 @@
-"""C03 finding (doc-oneline-colon-alt-block): the four documentation styles are not interchangeable for a
+"""C03 finding (doc-oneline-colon-alt-block; repaired in /repo, kept as a regression demo): the four
+documentation styles were not interchangeable for a
 one-line comment that contains a colon.  read_metadata protects a ONE-line comment such as `Note: text`
 (first part is no metadata key) from being parsed as metadata; in the following-block style
 
